@@ -119,6 +119,11 @@ func generate(repo string) (*runData, error) {
 	eng.loadSecs = time.Since(t0).Seconds()
 	rd := &runData{eng: eng}
 	for _, fn := range eng.roots {
+		if fc := eng.cs.Funcs[eng.keyOf[fn]]; fc != nil && fc.Flags["inline_only"] {
+			// thin unexported wrappers: verified inside each caller, where the caller's ghost state is known
+			fc.Used = true
+			continue
+		}
 		u := eng.VerifyRoot(fn)
 		rd.units = append(rd.units, u)
 		rd.obls = append(rd.obls, u.obls...)
